@@ -555,4 +555,36 @@ example :
      | .ok r => decide (r = (1200, 835, [((0, [1]), 90), ((1, [2]), 75)]))
      | .error _ => false) = true := by decide
 
+/-!
+# Part 7 — a subsidy can be sent to ANY pool id (finding)
+
+`MessageSubsidy.Check` validates the sender address and the opcode length, not `ChainId`; `HandleMessageSubsidy` then does
+`PoolAdd(msg.ChainId, msg.Amount)`. Every other message validates its chain id with `checkChainId` (≤ `MaxChainId`).
+A subsidy whose `ChainId` is `c + EscrowPoolAddend` or `c + HoldingPoolAddend` is accepted and credits chain `c`'s escrow
+or holding pool: the pool then exceeds the open sell orders / the pending DEX orders and deposits — the equalities C20
+states are broken, by a transaction any account can send. `escrow_eq` / `holding_eq` therefore carry the side condition
+that a subsidy's pool id is not an escrow / holding pool id of a valid chain (`OpOk`, `DexOk`); the witnesses below show
+the condition is necessary, and the harness family `subsidy-*` reproduces them on the real state machine, also through
+the real `ApplyTransaction` with a signed transaction.
+-/
+
+/-- the stateless check does not look at `ChainId` … -/
+theorem subsidy_check_source : src_MessageSubsidy_Check =
+    "if x == nil { return ErrInvalidSubisdy() }; if err := checkAddress(x.Address); err != nil { return err }; if len(x.Opcode) > 100 { return ErrInvalidOpcode() }; return nil" := rfl
+
+/-- … and the handler credits `pools[ChainId]` -/
+theorem subsidy_handler_source : src_HandleMessageSubsidy =
+    "retired, err := s.CommitteeIsRetired(msg.ChainId); if err != nil { return err }; if retired { return ErrNonSubsidizedCommittee() }; if err = s.AccountSub(crypto.NewAddressFromBytes(msg.Address), msg.Amount); err != nil { return err }; return s.PoolAdd(msg.ChainId, msg.Amount)" := rfl
+
+/-- a subsidy to `2 + EscrowPoolAddend`: chain 2's escrow pool holds 340, its open orders are worth 300 -/
+theorem subsidy_breaks_escrow_eq :
+    let s := run {} [.fund addrA 1000, mkCreate id1 300, .subsidy addrA (2 + 65535) 40 []]
+    (getPool s (escrowId 2)).amount = 340 ∧ escrowSum s 2 = 300 := by decide
+
+/-- a subsidy to `2 + HoldingPoolAddend`: chain 2's holding pool holds 140, 100 is pending -/
+theorem subsidy_breaks_holding_eq :
+    let s := run {} [.fund addrA 1000, .setPool (liquidityId 2) { amount := 500 },
+      .limit 2 { amount := 100, requested := 1, addr := addrA, id := id1 }, .subsidy addrA (2 + 16383) 40 []]
+    holdAmt s 2 = 140 ∧ pendStored s 2 = 100 := by decide
+
 end Canopy.C20
